@@ -1,7 +1,7 @@
 (* C11 - OrderedMap and Set: insertion-ordered model, exact diffs, no deadlock. Statements only.
    els s (= s_toslice s) is the duplicate-free list of elements in first-insertion order, the abstraction of a state. *)
 From Coq Require Import NArith ZArith List Bool.
-From Verif.C11_Set Require Import Model Refine SetBasics ArithCodec SetProofs Corr Iter Iter2 History Locks Skeletons.
+From Verif.C11_Set Require Import Model CodecModel Refine SetBasics ArithCodec CodecFault SetProofs Corr Iter Iter2 History Locks Skeletons.
 Import ListNotations.
 Open Scope N_scope.
 
@@ -152,6 +152,78 @@ Theorem C11_codec_decode_into : forall s t, Inv s -> Inv t ->
   let '(s', r) := s_decode t (s_encode s) in
   r = Some (length (s_encode s)) /\ Inv s' /\ s_toslice s' = fold_left e_add (s_toslice s) (s_toslice t).
 Proof. exact codec_decode_into. Qed.
+
+(* ---- codec of SerializableOrderedMap[K,V] / Set[K] for ARBITRARY key / value types whose serix encoding may fail
+   (round 2). ek ev : N -> option bytes are the entry codecs (None = api.Encode fails: the fault script), dk dv the
+   entry decoders; every map o, every codec. ---- *)
+
+(* Encode returns the error of the first failing api.Encode call (iteration order, key before value) when there is one,
+   otherwise count ++ (key ++ value)*: never truncated bytes with a nil error *)
+Theorem C11_codec_encode_error_faithful : forall (ek ev : N -> option (list N)) (o : omap),
+  som_encode ek ev o =
+    match first_fault ek ev 0 (om_list o) with
+    | Some e => EncErr e
+    | None => EncOk (enc_u32 (N.of_nat (om_size o)) ++ flat_map (entry_code ek ev) (om_list o))
+    end.
+Proof. exact codec_encode_error_faithful. Qed.
+
+Theorem C11_codec_encode_error_iff : forall ek ev o,
+  (exists e, som_encode ek ev o = EncErr e) <->
+  (exists kv, In kv (om_list o) /\ (ek (fst kv) = None \/ ev (snd kv) = None)).
+Proof. exact codec_encode_error_iff. Qed.
+
+(* the reported error names a call that fails, and no earlier call fails *)
+Theorem C11_codec_encode_error_first : forall ek ev l i e, first_fault ek ev i l = Some e ->
+  exists j kv, nth_error l j = Some kv /\
+    ((e = CEKey (i + j) /\ ek (fst kv) = None) \/ (e = CEVal (i + j) /\ ek (fst kv) <> None /\ ev (snd kv) = None)) /\
+    first_fault ek ev i (firstn j l) = None.
+Proof. exact first_fault_some. Qed.
+
+(* when Encode succeeds, Decode of its output (plus any trailing bytes) into an empty map restores contents and order and
+   reads exactly the encoding; decoders that invert the encoders *)
+Theorem C11_codec_roundtrip_generic : forall ek ev dk dv, inverts ek dk -> inverts ev dv ->
+  forall o b r, Inv o -> N.of_nat (om_size o) < 4294967296 -> som_encode ek ev o = EncOk b ->
+  let '(s', n) := som_decode dk dv om_empty (b ++ r) in
+  n = Some (length b) /\ Inv s' /\ om_list s' = om_list o.
+Proof. exact codec_roundtrip_generic. Qed.
+
+(* Decode of ANY input reports success exactly when the count and all announced entries can be decoded in sequence, then
+   with exactly these entries Set in order and bytesRead = the bytes consumed; otherwise an error *)
+Theorem C11_codec_decode_success_iff_parse : forall dk dv s b,
+  match dec_u32 b with
+  | None => snd (som_decode dk dv s b) = None
+  | Some (cnt, rest) =>
+      match parse dk dv (N.to_nat cnt) rest with
+      | Some (kvs, r) =>
+          som_decode dk dv s b = (set_all s kvs, Some (length b - length r)%nat) /\ length kvs = N.to_nat cnt
+      | None => snd (som_decode dk dv s b) = None
+      end
+  end.
+Proof. exact codec_decode_success_iff_parse. Qed.
+
+(* every proper prefix of a successful encoding makes Decode report an error, whatever the receiver holds *)
+Theorem C11_codec_decode_truncated_fails : forall ek ev dk dv,
+  inverts ek dk -> inverts ev dv -> rejects_truncated ek dk -> rejects_truncated ev dv ->
+  forall o b, Inv o -> N.of_nat (om_size o) < 4294967296 -> som_encode ek ev o = EncOk b ->
+  forall p q s, b = p ++ q -> q <> [] -> snd (som_decode dk dv s p) = None.
+Proof. exact codec_decode_truncated_fails. Qed.
+
+(* non-vacuity: the one-byte codec (numbers >= 256 cannot be encoded) satisfies the hypotheses; a failing value in the
+   middle, a round trip, a truncated input *)
+Example C11_nonvacuous_codec_fault :
+  inverts e_byte d_byte /\ rejects_truncated e_byte d_byte /\ Inv (om_of_entries [(1, 2); (3, 4)]) /\
+  (som_encode e_byte e_byte (om_of_entries [(1, 2); (3, 4)]),
+   som_encode e_byte e_byte (om_of_entries [(1, 2); (3, 256); (5, 6)]),
+   som_encode e_byte e_byte (om_of_entries [(1, 2); (300, 256); (5, 6)]),
+   let '(s, r) := som_decode d_byte d_byte om_empty [2; 0; 0; 0; 1; 2; 3; 4] in (om_list s, r),
+   let '(s, r) := som_decode d_byte d_byte om_empty [2; 0; 0; 0; 1; 2; 3] in (om_list s, r)) =
+  (EncOk [2; 0; 0; 0; 1; 2; 3; 4], EncErr (CEVal 1), EncErr (CEKey 1), ([(1, 2); (3, 4)], Some 8%nat), ([(1, 2)], None)).
+Proof.
+  split; [exact e_byte_inverts|]. split; [exact e_byte_rejects_truncated|]. split.
+  - unfold om_of_entries. cbn [fold_left fst snd].
+    apply (proj1 (set_spec _ 3 4 (proj1 (set_spec _ 1 2 (proj1 empty_spec))))).
+  - vm_compute. reflexivity.
+Qed.
 
 (* ---- concurrency ---- *)
 
@@ -342,6 +414,12 @@ Print Assumptions C11_arith_add.
 Print Assumptions C11_arith_sub.
 Print Assumptions C11_codec_roundtrip.
 Print Assumptions C11_codec_decode_into.
+Print Assumptions C11_codec_encode_error_faithful.
+Print Assumptions C11_codec_encode_error_iff.
+Print Assumptions C11_codec_encode_error_first.
+Print Assumptions C11_codec_roundtrip_generic.
+Print Assumptions C11_codec_decode_success_iff_parse.
+Print Assumptions C11_codec_decode_truncated_fails.
 Print Assumptions C11_lock_hierarchy.
 Print Assumptions C11_no_deadlock.
 Print Assumptions C11_refuted_deleteall_pinned.
